@@ -24,4 +24,18 @@ for m in rows:
         out.append('* %s: %s' % (k, v))
     out.append('')
 open(os.path.join(ROOT, 'seeded', 'README.md'), 'w').write('\n'.join(out) + '\n')
+# short catch matrix inside DESIGN.md (between the markers)
+mat = ['<!-- seeded-matrix-begin -->', '| change | aimed at | file changed | caught by (quick) | also run, silent |', '|---|---|---|---|---|']
+for m in rows:
+    silent = sorted({k.split()[0] for k, v in m.get('checks_run', {}).items() if v.startswith('rc=0')} - set(m['caught_by']))
+    mat.append('| %s | %s | %s | %s | %s |' % (m['id'], m['property'], m['change'].split(':')[0].split(',')[0].split(' ')[0], ', '.join(m['caught_by']) or '**none**', ', '.join(silent)))
+mat.append('<!-- seeded-matrix-end -->')
+dp = os.path.join(ROOT, 'DESIGN.md')
+d = open(dp).read()
+if '@@MATRIX@@' in d:
+    d = d.replace('@@MATRIX@@', '\n'.join(mat))
+else:
+    a = d.index('<!-- seeded-matrix-begin -->'); b = d.index('<!-- seeded-matrix-end -->') + len('<!-- seeded-matrix-end -->')
+    d = d[:a] + '\n'.join(mat) + d[b:]
+open(dp, 'w').write(d)
 print('seeded/README.md: %d changes' % len(rows))
